@@ -15,7 +15,7 @@ CLAIMS = {
          "each txid the same payout, the dust recipient is the unique maximum under (amount, txid order) — for all request sets; table obligations regenerated from the "
          "source: no iteration over a map and no sort in the code reachable from block application other than the reviewed ones. The model of a block is a function "
          "of the chain (no clock, no order input) and is tied to the node on every table of the ledger; N independent OS processes replay chains with exact ties and "
-         "their dumps are compared.", "section 6 C01", ""),
+         "their dumps are compared; a daemon serving API requests during sync is compared with one serving none.", "section 6 C01", ""),
  "C02": ("Coq theorem over all chains and all sequences of events of the sync loop (failed attempts rolled back, SIGKILL before COMMIT returns or right after, restarts, "
          "API requests): the committed database is always the uninterrupted replay of a prefix of the chain and the rest is still to be applied; each block records its "
          "height exactly once; table obligations from the source: every write of a block goes through its sql.Tx, reads that bypass it are the reviewed ones, the journal is on disk with synchronous writes, the height mark is a plain "
@@ -44,7 +44,7 @@ CLAIMS = {
          "section 6 C06", "'considered exactly once' for held batches is proved as two window theorems (a held height is looked at by the next rated block; it is not looked at again once a rated height lies between); that a batch is in at most one window between two consecutive rated heights is their corollary, the end-to-end chain statement is by correspondence. "),
  "C07": ("Coq theorems over all int64 amounts and uint64 rates: Convert = floor(in*src/dst) with min/max against averages from PIP-10, error exactly on zero rate/average or "
          "int64 overflow, value never increases; chain level: a batch with conversions is only put into holding by its own block and executed by the next block that has "
-         "rates, at that block's rates (model of SyncBlock tied to the real node on chains with graded / ungraded patterns, including unrated snapshot heights).",
+         "rates, at that block's rates: for every block without winners, whatever it contains, the status of every earlier batch is untouched (theorem over the whole block function); model of SyncBlock tied to the real node on chains with graded / ungraded patterns, including unrated snapshot heights, and on seed-driven random chains; a daemon under API load against an unloaded one.",
          "section 6 C07", ""),
  "C08": ("Coq theorems: the entries of the transaction chain are processed to the end WHATEVER they contain (totality of apply_tx_block from the invariants hist_closed / "
          "bal_room, which every reachable state is proved to satisfy; exact residual failure codes with no hypothesis on the entries), the holding pass of a rated block cannot "
@@ -65,7 +65,7 @@ CLAIMS = {
          "order (ladders regenerated from the source). Tie: the real grader libraries' verdicts are inputs of the model; balances, coinbase and burn history, pn_winners and "
          "pn_grade compared with the node.", "section 6 C11",
          "The graders are oracles (assumed total). 'SPRs not signed by a top-100 holder key pay nothing' is covered by the top-100 filter in the model and the correspondence; the staker id is not bound to the signing key (design section 6 C11). "),
- "C12": ("Coq theorems over all blocks: rates once recorded for a height never change and a block records rates for no other height than its own. Tie: chains playing every "
+ "C12": ("Coq theorems over all blocks: rates once recorded for a height never change, a block records rates for no other height than its own, and a block whose OPR (and from 2.0 SPR) verdict has no winners records no rates at all and changes the status of no earlier batch (executes no pending conversion). Tie: chains playing every "
          "OPR/SPR combination (only OPR, only SPR, both in band, on the edge, outside) in the three band regimes with Coq's binary64 arithmetic, compared on pn_rate and "
          "batch status; oracle on the node's dumps: a rate row never changes or disappears.", "section 6 C12",
          "The numeric sandwich of the binary64 band predicate is not proved (the predicate is the code's computation, checked by correspondence). Known finding in the design: the nil error returned on a band failure before 2.0.2 (closed era) is mirrored by the model. "),
@@ -73,14 +73,14 @@ CLAIMS = {
          "small assets / PEG, unconvertible, let through), PEG conversions refused from 2.0 on, a conversion that is let through is recorded and a refused one leaves every "
          "balance untouched; the one-way sets are regenerated from the source. Tie: a slice of all pairs x {act-1, act, act+1} on the real node; a chain where one asset loses its average while keeping its market rate.", "section 6 C13", ""),
  "C14": ("Coq theorems for all stake sets: the total paid never exceeds the cap, equals it to the last unit when the stakes reach it, below it everybody receives his stake; the "
-         "stake depends on the two snapshots only through the per-asset minimum; an address absent from the previous snapshot has no stake; order independence. Tie: "
+         "stake depends on the two snapshots only through the per-asset minimum; an address absent from the previous snapshot has no stake; order independence; on the ledger, for every state: SnapshotPayouts rotates the snapshots (past := current, current := the balances of that moment), creates only PEG, by exactly the payouts of the sorted positive stakes, at most 4500 PEG x 144 and exactly that when the stakes reach it. Tie: "
          "ConversionSupplySet.Payouts differential and chains over three snapshot periods compared on balances, snapshots and staking rows.", "section 6 C14", ""),
  "C15": ("Coq theorems by computation over the tables regenerated from the source on every run: developer payouts total exactly 2000 PEG x 144 (2000 before 2.0.2), every amount "
          "is the binary64 product of its percentage, percentages sum to 100, cadence = activation and multiple of 144, the one-time adjustments have distinct heights none of "
-         "which is a payout height, the minted supply is well-formed. Tie: chains crossing the activations compared on balances and coinbase rows.", "section 6 C15",
+         "which is a payout height, the minted supply is well-formed; and by induction, for every ledger state: a developer payout raises the PEG supply by exactly that table total and no other asset, the 2.0.4 mint raises every asset's supply by exactly its listed amount, all of it on the mint address. Tie: chains crossing the activations compared on balances and coinbase rows.", "section 6 C15",
          "Known findings in the design (zeroing rows refused / txid collision) are mirrored by the model. "),
  "C16": ("Coq theorems for all request sets: the PEG created from one bank never exceeds it and exhausts it when requests reach it, shares are floor(request*bank/total), yield "
-         "plus refund never exceeds the input's value, order independence. Tie: Payouts and Refund differentials; bank-era chains compared on balances, pn_bank rows, yields "
+         "plus refund never exceeds the input's value, order independence; on the ledger, for every state and every set of entries made of PEG requests: one bank pass raises the PEG supply by exactly the sum of the yields (<= bank, = bank when reached) and, from V4 on, the bank row keeps its amount and records used and requested. Tie: Payouts and Refund differentials; bank-era chains compared on balances, pn_bank rows, yields "
          "and refunds.", "section 6 C16", "Known finding: mixed bank-era batches (closed era). "),
  "C17": ("Coq theorems: a rejected batch gets exactly its negative code and moves no balance; effects only with a complete execution; whenever a batch is recorded its history rows carry the "
          "credited amounts, its status says the executing height and EVERY balance cell moves by exactly what those rows stand for (arrival path, holding path, and the coinbase-style "
